@@ -1,6 +1,6 @@
 (* C15/RefcountOps.v — every operation, run from a state that satisfies the invariant
    with no handle left in a local, ends in such a state and never touches a destroyed object. *)
-From MptV Require Import Base.Mem C15.RefcountModel C15.RefcountSpec C15.RefcountCounter C15.RefcountInv C15.RefcountSteps.
+From MptV Require Import Base.Mem C15.RefcountModel C15.RefcountSpec C15.RefcountCounter C15.RefcountInv C15.RefcountSteps C15.RefcountFr.
 Local Open Scope nat_scope.
 
 Definition Good (s : st) : Prop := Inv s /\ pend s = [].
@@ -340,6 +340,7 @@ Proof.
   destruct (eq_opt (slot s si) (slot s d)) eqn:Q.
   { eexists _, _. split; [reflexivity|]. split; [assumption|apply same_kinds_refl]. }
   apply eq_opt_false in Q.
+  destruct (tmismatch _ _ _); [eexists _, _; split; [reflexivity|]; split; [assumption|apply same_kinds_refl]|].
   destruct (retain_ok s (slot s si) I) as (s1 & ok & E & I1 & K1 & H1 & P1).
   { intros o Ho. apply (H3_slot s si o Ho). }
   rewrite E. cbn [bind]. rewrite P, app_nil_r in P1. destruct ok; cbn [negb].
@@ -475,6 +476,7 @@ Proof.
   destruct (eq_opt (slot s a) (oinner x)) eqn:Q.
   { eexists _, _. split; [reflexivity|]. split; [assumption|apply same_kinds_refl]. }
   apply eq_opt_false in Q.
+  destruct (tmismatch _ _ _); [eexists _, _; split; [reflexivity|]; split; [assumption|apply same_kinds_refl]|].
   destruct (kind_is_spec s _ _ Hk) as (o0 & x0 & S0 & E0 & B0). rewrite S in S0. inversion S0; subst o0.
   rewrite E in E0. inversion E0; subst x0.
   assert (NB : is_buf (okind x) = false) by (destruct (okind x); try discriminate; reflexivity).
@@ -649,4 +651,114 @@ Proof.
   destruct (inv_live s o I (H3_slot s si o S)) as (x & E & D). rewrite (live_ok s o x E D). cbn [bind].
   destruct (new_put_ok s (okind x) None d I P Hs Hd) as (G1 & K1 & _); [discriminate|].
   destruct (m_new s (okind x) None) as [s1 id]. cbn [fst snd] in *. eexists _, _. split; [reflexivity|]. auto.
+Qed.
+
+(* ---------- the stage array of a rawdata object ---------- *)
+Lemma kind_is_stage_buf kd v : (is_none v || kind_is kd v is_stage) = true -> (is_none v || kind_is kd v is_buf) = true.
+Proof.
+  destruct v as [o|]; [|reflexivity]. cbn [is_none orb kind_is]. destruct (kd o) as [k|]; [|discriminate].
+  destruct k; try discriminate; reflexivity.
+Qed.
+
+Lemma is_raw_not_buf k : is_raw k = true -> is_buf k = false.
+Proof. destruct k; try discriminate; reflexivity. Qed.
+
+Lemma new_inner_ok s o x : Good s -> nth_error (objs s) o = Some x -> odead x = false -> oinner x = None ->
+  is_buf (okind x) = false ->
+  exists s2, (let '(s1, n) := m_new s KStage None in put_inner s1 o (Some n)) = Ok s2 /\ Good s2 /\ same_kinds s s2 /\ hs s2 = hs s.
+Proof.
+  intros [I P] E D Hi NB.
+  destruct (m_new_ok s KStage None I) as (I1 & K1 & H1 & P1 & V1 & En); [discriminate|].
+  unfold m_new in *. cbn [fst snd] in *.
+  set (s1 := mkst (objs s ++ [mkobj KStage match cls_of KStage with Counted => 1%N | _ => 0%N end 0%N false None]) (hs s)
+                  (length (objs s) :: rm_opt None (pend s)) (elog s)) in *.
+  assert (E1 : nth_error (objs s1) o = Some x).
+  { unfold s1. cbn [objs]. rewrite nth_error_app1; [assumption|]. apply nth_error_Some. congruence. }
+  destruct (put_inner_ok s1 o x (Some (length (objs s))) I1 E1 D Hi) as (s2 & E2 & I2 & K2 & H2 & P2).
+  { intros b Hb. injection Hb as <-. split; [rewrite P1; left; reflexivity|]. split; [assumption|].
+    eexists. split; [exact En|reflexivity]. }
+  exists s2. split; [exact E2|]. split; [|split; [eapply same_kinds_trans; eassumption|congruence]].
+  split; [assumption|]. rewrite P2, P1, P. cbn [rm_opt]. apply remove_one_cons.
+Qed.
+
+Lemma p_advance_ok s m o : Good s -> slot s m = Some o -> kind_is (kind_at s) (slot s m) is_raw = true ->
+  exists s' t, p_advance s o = Ok (s', t) /\ Good s' /\ same_kinds s s'.
+Proof.
+  intros G S Hk. pose proof G as [I P]. unfold p_advance.
+  destruct (inv_live s o I (H3_slot s m o S)) as (x & E & D). rewrite (live_ok s o x E D). cbn [bind].
+  destruct (kind_is_spec s _ _ Hk) as (o0 & x0 & S0 & E0 & B0). rewrite S in S0. inversion S0; subst o0.
+  rewrite E in E0. inversion E0; subst x0.
+  destruct (oinner x) as [b|] eqn:Hi.
+  - eexists _, _. split; [reflexivity|]. split; [assumption|apply same_kinds_refl].
+  - destruct (new_inner_ok s o x G E D Hi (is_raw_not_buf _ B0)) as (s2 & E2 & G2 & K2 & _).
+    destruct (m_new s KStage None) as [s1 n]. rewrite E2. cbn [bind]. eexists _, _. split; [reflexivity|]. auto.
+Qed.
+
+Lemma p_modify_ok s m o : Good s -> slot s m = Some o -> kind_is (kind_at s) (slot s m) is_raw = true ->
+  exists s' t, p_modify s o = Ok (s', t) /\ Good s' /\ same_kinds s s'.
+Proof.
+  intros G S Hk. pose proof G as [I P]. unfold p_modify.
+  destruct (inv_live s o I (H3_slot s m o S)) as (x & E & D). rewrite (live_ok s o x E D). cbn [bind].
+  destruct (kind_is_spec s _ _ Hk) as (o0 & x0 & S0 & E0 & B0). rewrite S in S0. inversion S0; subst o0.
+  rewrite E in E0. inversion E0; subst x0.
+  pose proof (is_raw_not_buf _ B0) as NB.
+  destruct (oinner x) as [b|] eqn:Hi.
+  2:{ destruct (new_inner_ok s o x G E D Hi NB) as (s2 & E2 & G2 & K2 & _).
+      destruct (m_new s KStage None) as [s1 n]. rewrite E2. cbn [bind]. eexists _, _. split; [reflexivity|]. auto. }
+  destruct (inv_live s b I (H3_inner s o x b E Hi)) as (y & Ey & Dy). rewrite (live_ok s b y Ey Dy). cbn [bind].
+  destruct (ocnt y <? 2)%N.
+  { eexists _, _. split; [reflexivity|]. split; [assumption|apply same_kinds_refl]. }
+  destruct (m_new_ok s KStage None I) as (I1 & K1 & H1 & P1 & V1 & En); [discriminate|].
+  unfold m_new in *. cbn [fst snd] in *.
+  set (s1 := mkst (objs s ++ [mkobj KStage match cls_of KStage with Counted => 1%N | _ => 0%N end 0%N false None]) (hs s)
+                  (length (objs s) :: rm_opt None (pend s)) (elog s)) in *.
+  assert (E1 : nth_error (objs s1) o = Some x).
+  { unfold s1. cbn [objs]. rewrite nth_error_app1; [assumption|]. apply nth_error_Some. congruence. }
+  rewrite (live_ok s1 o x E1 D). cbn [bind].
+  destruct (take_inner_ok s1 o x I1 E1 D) as [I2 K2].
+  assert (P2 : pend (take_inner s1 o x) = [b; length (objs s)]).
+  { unfold take_inner. cbn [pend]. rewrite Hi. unfold s1. cbn [pend o2l app rm_opt]. rewrite P. reflexivity. }
+  destruct (m_unref_ok (take_inner s1 o x) b I2) as (s3 & E3 & I3 & K3 & H3' & P3); [rewrite P2; left; reflexivity|].
+  rewrite E3. cbn [bind]. rewrite P2, remove_one_cons in P3.
+  destruct (m_unref_fr _ _ _ E3) as [[_ F3] _].
+  destruct (F3 o (with_inner x None)) as (x3 & Ex3 & Kx3 & _ & Dx3).
+  { unfold take_inner. cbn [objs]. rewrite nth_error_set_nth, Nat.eqb_refl, E1. reflexivity. }
+  assert (S3 : slot s3 m = Some o).
+  { rewrite (slot_hs (take_inner s1 o x) s3 m H3'). exact S. }
+  destruct (inv_live s3 o I3 (H3_slot s3 m o S3)) as (x3' & Ex3' & D3). rewrite Ex3 in Ex3'. injection Ex3' as <-.
+  destruct (Dx3 D3) as [_ Hi3]. cbn [with_inner oinner okind] in *.
+  assert (K13 : same_kinds s s3).
+  { eapply same_kinds_trans; [exact K1|]. eapply same_kinds_trans; eassumption. }
+  destruct (put_inner_ok s3 o x3 (Some (length (objs s))) I3 Ex3 D3 Hi3) as (s4 & E4 & I4 & K4 & H4 & P4).
+  { intros n Hn. injection Hn as <-. split; [rewrite P3; left; reflexivity|]. split; [congruence|].
+    assert (KK : same_kinds s1 s3) by (eapply same_kinds_trans; eassumption).
+    destruct KK as [_ KK]. destruct (KK _ _ En) as (y' & Ey' & Ky'). exists y'. split; [assumption|]. rewrite Ky'. reflexivity. }
+  rewrite E4. cbn [bind]. eexists _, _. split; [reflexivity|]. split; [|eapply same_kinds_trans; eassumption].
+  split; [assumption|]. rewrite P4, P3. cbn [rm_opt]. apply remove_one_cons.
+Qed.
+
+Lemma p_rawget_ok s m o a : Good s -> slot s m = Some o -> a < NSLOT ->
+  exists s' t, p_rawget s o a = Ok (s', t) /\ Good s' /\ same_kinds s s'.
+Proof.
+  intros G S Ha. pose proof G as [I P]. unfold p_rawget.
+  destruct (inv_live s o I (H3_slot s m o S)) as (x & E & D). rewrite (live_ok s o x E D). cbn [bind].
+  destruct (eq_opt (oinner x) (slot s a)) eqn:Q.
+  { eexists _, _. split; [reflexivity|]. split; [assumption|apply same_kinds_refl]. }
+  apply eq_opt_false in Q.
+  destruct (tmismatch _ _ _); [eexists _, _; split; [reflexivity|]; split; [assumption|apply same_kinds_refl]|].
+  destruct (retain_ok s (oinner x) I) as (s1 & ok & E1 & I1 & K1 & H1 & P1).
+  { intros b Hb. apply (H3_inner s o x b E Hb). }
+  rewrite E1. cbn [bind]. rewrite P, app_nil_r in P1. destruct ok; cbn [negb].
+  2:{ eexists _, _. split; [reflexivity|]. split; [split; assumption|assumption]. }
+  destruct (m_take_ok s1 a I1) as (I2 & K2 & O2 & H2 & P2 & V2).
+  destruct (m_take s1 a) as [s2 old]. cbn [fst snd] in *.
+  assert (Vo : old = slot s a) by (rewrite V2; apply slot_hs, H1).
+  destruct (store_then_unref s2 a (oinner x) old I2 Ha) as (s' & E' & G' & K').
+  { rewrite (slot_set s1 s2 a None a H2) by (rewrite (inv_len s1 I1); assumption). rewrite Nat.eqb_refl. reflexivity. }
+  { rewrite P2, P1, <- V2. reflexivity. }
+  { left. congruence. }
+  assert (KK : same_kinds s s') by (eapply same_kinds_trans; [exact K1|]; eapply same_kinds_trans; eassumption).
+  destruct old as [b|]; cbn [unref_opt] in E'.
+  - rewrite E'. cbn [bind]. eexists _, _. split; [reflexivity|]. auto.
+  - inversion E'; subst s'. eexists _, _. split; [reflexivity|]. auto.
 Qed.
